@@ -77,3 +77,7 @@ Definition g_be64 (s : bytes) : R Z := if (length s <? 8)%nat then Pan else Val 
 Definition g_putn (n : nat) (s : bytes) (a v : Z) : R bytes :=
   if (a <? 0) || (g_len s <? a + Z.of_nat n) then Pan
   else Val (firstn (Z.to_nat a) s ++ to_be n (Z.to_N (v mod 2 ^ (8 * Z.of_nat n))) ++ skipn (Z.to_nat a + n) s).
+(* binary.BigEndian.PutUint16(s[a:hi], v) *)
+Definition g_put16_in (s : bytes) (a hi v : Z) : R bytes :=
+  if (a <? 0) || (hi <? a) || (g_len s <? hi) || (hi - a <? 2) then Pan
+  else Val (upd (upd s (Z.to_nat a) (g_byte ((v / 256) mod 256))) (Z.to_nat a + 1) (g_byte (v mod 256))).
